@@ -5,6 +5,7 @@ import (
 	"fmt"
 	"net"
 	"os"
+	"strconv"
 	"strings"
 	"sync"
 	"time"
@@ -104,7 +105,7 @@ func (m *vpMesh) link(tb vpTB, from, to string) *mem.Link {
 	m.mu.Unlock()
 	// wait until both sides registered the peer
 	b := m.agents[to]
-	deadline := time.Now().Add(5 * time.Second)
+	deadline := time.Now().Add(vpPatience(5 * time.Second))
 	for time.Now().Before(deadline) {
 		if a.peerMgr.GetPeer(b.ID()) != nil && b.peerMgr.GetPeer(a.ID()) != nil {
 			return l
@@ -115,10 +116,21 @@ func (m *vpMesh) link(tb vpTB, from, to string) *mem.Link {
 	return nil
 }
 
+// vpPatience stretches a wait for something that normally happens within milliseconds: the
+// bound only matters when it never happens, and a busy machine must not turn "slow" into
+// "never" (VP_PATIENCE, default 4).
+func vpPatience(d time.Duration) time.Duration {
+	k := 4
+	if v, err := strconv.Atoi(os.Getenv("VP_PATIENCE")); err == nil && v > 0 {
+		k = v
+	}
+	return d * time.Duration(k)
+}
+
 // waitCIDR waits until agent `at` has a route for ip whose origin is `origin`.
 func (m *vpMesh) waitCIDR(at, ip, origin string, d time.Duration) bool {
 	a, o := m.agents[at], m.agents[origin]
-	deadline := time.Now().Add(d)
+	deadline := time.Now().Add(vpPatience(d))
 	for time.Now().Before(deadline) {
 		if r := a.routeMgr.Lookup(net.ParseIP(ip)); r != nil && r.OriginAgent == o.ID() {
 			return true
@@ -131,7 +143,7 @@ func (m *vpMesh) waitCIDR(at, ip, origin string, d time.Duration) bool {
 // waitAgent waits until `at` knows a route to agent `target`.
 func (m *vpMesh) waitAgent(at, target string, d time.Duration) bool {
 	a, o := m.agents[at], m.agents[target]
-	deadline := time.Now().Add(d)
+	deadline := time.Now().Add(vpPatience(d))
 	for time.Now().Before(deadline) {
 		if a.peerMgr.GetPeer(o.ID()) != nil {
 			return true
